@@ -68,6 +68,10 @@ def step (st : St) (args : List String) : St × String :=
        match parseDict bs with
        | none => fin st.dec st.src "err dict"
        | some d => fin { st.dec with dicts := d :: st.dec.dicts.filter (fun x => x.id ≠ d.id) } st.src s!"ok {d.id}")
+  | ["forcedict", n] =>
+    (match n.toNat? with
+     | some id => let (d, o) := st.dec.forceDict id; fin d st.src (showOut o fun _ => "")
+     | none => (st, badOp))
   | ["src", h] =>
     (match bytesOfHex h with
      | none => (st, badOp)
